@@ -612,5 +612,5 @@ func runFan(s FanScript) (nontrivial bool, key string, f *vt.Finding) {
 
 func TestFanout(t *testing.T) {
 	defer flushOpReach(cFan)
-	vt.Run(t, cFan, vt.N(20000, 1500000), genFan, runFan)
+	vt.Run(t, cFan, vt.N(16000, 800000), genFan, runFan)
 }
